@@ -116,6 +116,7 @@ type Task struct {
 	state   int
 	blockOn string
 	WaitsOn any // *Mutex or *RWMutex the task is blocked on (nil otherwise)
+	notBefore int // scheduling step before which the task is not eligible (spawn delay; 0 = none)
 	Start   int // step at which the task first ran
 	End     int // step at which it finished (0 = not finished)
 }
@@ -155,6 +156,10 @@ type Sim struct {
 	PreMaxGap int
 	PreHits   int // preemption points that fired in this run
 	PreNoStop bool // a zero gap draw does not end the preemptions of this run (dense preemption strata)
+	// SpawnDelayDen (>0): every goroutine the *library* starts is, with probability 1/SpawnDelayDen, not eligible to run
+	// for 1..SpawnDelayMax scheduling steps (a goroutine that the OS scheduler leaves waiting while others make
+	// progress - uniform picking alone starves a given task for k steps only with probability ~(1-1/n)^k)
+	SpawnDelayDen, SpawnDelayMax int
 	quiet     atomic.Int32
 
 	// Stalled, when non-nil, reports whether tasks with the given label are currently withheld
@@ -255,16 +260,24 @@ func Run(tape *Tape, maxSteps int, horizon time.Duration, root func(s *Sim)) *Si
 		s.mu.Lock()
 		sort.Slice(s.ready, func(i, j int) bool { return s.ready[i].ID < s.ready[j].ID })
 		elig = elig[:0]
-		if s.Stalled != nil {
+		for _, t := range s.ready {
+			if s.SpawnDelayDen > 0 && t.notBefore > s.Steps {
+				continue // a delayed spawn waits its turn
+			}
+			if s.Stalled != nil && t.Label != "" && s.Stalled(t.Label) {
+				continue
+			}
+			elig = append(elig, t)
+		}
+		if len(elig) == 0 {
+			// never stall everything: first let stalled nodes run, then delayed spawns
 			for _, t := range s.ready {
-				if t.Label == "" || !s.Stalled(t.Label) {
+				if !(s.SpawnDelayDen > 0 && t.notBefore > s.Steps) {
 					elig = append(elig, t)
 				}
 			}
-			if len(elig) == 0 {
-				elig = append(elig, s.ready...) // never stall everything
-			}
-		} else {
+		}
+		if len(elig) == 0 {
 			elig = append(elig, s.ready...)
 		}
 		n := len(elig)
@@ -419,6 +432,9 @@ func Go(f func()) {
 		return
 	}
 	c := s.newChild(s.current())
+	if s.SpawnDelayDen > 0 && s.Tape.Intn(s.SpawnDelayDen) == 0 {
+		c.notBefore = s.Steps + 1 + s.Tape.Intn(s.SpawnDelayMax)
+	}
 	go func() {
 		s.bind(c)
 		s.park(c, "spawn")
